@@ -308,8 +308,9 @@ def periodogram_csd(s, Fs=2 * np.pi, Sk=None, NFFT=None, sides='default',
         the output is (M,M,N)
 
     """
-    s_shape = s.shape
-    s.shape = (-1, s_shape[-1])
+    # work on a reshaped view: the caller's array keeps its shape, also when
+    # the transform below raises
+    s_loc = s.reshape(-1, s.shape[-1])
     # defining an Sk_loc is a little opaque, but it avoids having to
     # reset the shape of any user-given Sk later on
     if Sk is not None:
@@ -320,10 +321,8 @@ def periodogram_csd(s, Fs=2 * np.pi, Sk=None, NFFT=None, sides='default',
         if NFFT is not None:
             N = NFFT
         else:
-            N = s.shape[-1]
-        Sk_loc = fftpack.fft(s, n=N)
-    # reset s.shape
-    s.shape = s_shape
+            N = s_loc.shape[-1]
+        Sk_loc = fftpack.fft(s_loc, n=N)
 
     M = Sk_loc.shape[0]
 
